@@ -442,6 +442,15 @@ class Summaries:
                         return NotImplemented
                     items.append(r[0])
                 return mk("array", *items)
+            if n is not None:
+                # a long array: the same thing as (0..n).map(f) collected - one symbolic element
+                rng = mk("struct", "core::ops::Range", ("start", "end"), lit(0), lit(n))
+                item = mk("item_of", rng)
+                r = I.apply_fn(a[0], [item], ctx.e, ctx.env, ctx.fr)
+                if r is not None:
+                    v = mk("seq_map_t", item, r[0], rng)
+                    I.lengths[v] = n
+                    return v
         if tp == "core::iter::Iterator::flat_map":
             item = mk("item_of", a[0])
             r = I.apply_fn(a[1], [item], ctx.e, ctx.env, ctx.fr)
